@@ -12,7 +12,9 @@ PROPERTY = 'C13'
 RULE = ('totality: arbitrary unicode text, token soup over the OAL token alphabet, single-edit mutants (delete / duplicate / '
         'swap / replace a token, truncate, insert a character) of generated programs, and pumped inputs (comment '
         'openers followed by 2^k newlines / stars / slashes, quote runs, parenthesis runs, digit/./e runs, "end" + '
-        'whitespace): parse must return a BodyNode or raise ParseException within a 10 s alarm. positions: generated '
+        'whitespace): parse must return a BodyNode or raise ParseException within a 10 s alarm, and in every ACCEPTED text each '
+        'statement / expression node must name (by line and column) a stretch of that text running from a token character to '
+        'a token character, record exactly that stretch, and lie inside its enclosing node. positions: generated '
         'bodies over every statement production printed with a drawn layout (multi-line expressions, tabs, CR, block '
         'and line comments, newlines inside "end if/for/while", glued tokens, redundant parentheses): every statement '
         'and expression node must carry the line/column of its first token, the line/column of the last character of '
@@ -59,11 +61,76 @@ def parse_total(text, case):
 def totality_body(res):
     def body_(case):
         text = case['text']
-        out, _ = parse_total(text, case)
+        out, root = parse_total(text, case)
+        checked = 0
+        if out == 'ok':
+            checked = self_consistent(root, text, case)
         nt = len(TOKEN_RE.findall(text)) >= 3
         res.case(text, nt, sample={'kind': case['kind'], 'text': text[:300], 'outcome': out} if nt else None,
-                 classes=(case['kind'], case['kind'] + '-' + out))
+                 classes=(case['kind'], case['kind'] + '-' + out) + (('accepted-with-positions',) if checked else ()))
     return body_
+
+
+def subnodes(node):
+    for k, v in sorted(vars(node).items()):
+        if k == 'position':
+            continue
+        if isinstance(v, oal.Node):
+            yield v
+        elif isinstance(v, (list, tuple)):
+            for x in v:
+                if isinstance(x, oal.Node):
+                    yield x
+
+
+END_TOKEN = re.compile(r'(?i)end\s+(if|for|while)\Z')
+
+
+def self_consistent(root, text, case):
+    """Positions of ANY accepted text (not only of generated programs): every statement / expression node of the returned
+    tree names, by line and column, a stretch of the given text that begins and ends with a character of a token, and
+    records exactly that stretch; a node lies inside the node that contains it. -> number of nodes checked"""
+    starts = [0]
+    for i, ch in enumerate(text):
+        if ch == '\n':
+            starts.append(i + 1)
+
+    def offset(line, col):
+        if not (1 <= line <= len(starts)):
+            return None
+        return starts[line - 1] + col - 1
+
+    n = 0
+    stack = [(root, None)]
+    while stack:
+        node, outer = stack.pop()
+        t = type(node).__name__
+        span = outer
+        if t in EXPRESSION_NODES or t in STATEMENT_NODES:
+            ps = node.position
+            if ps is None:
+                raise Violation('position-missing:' + t, case, '%s of an accepted text has no position' % t)
+            cs = node.character_stream
+            so = offset(ps.start_line, ps.start_column)
+            where = '%s at %r:%r-%r:%r stream %r' % (t, ps.start_line, ps.start_column, ps.end_line, ps.end_column, (cs or '')[:60])
+            if not cs or cs[0].isspace() or cs[-1].isspace():
+                raise Violation('accepted-text:stream-not-token-to-token', case, where)
+            if so is None or text[so:so + len(cs)] != cs:
+                raise Violation('accepted-text:start-position-names-other-text', case,
+                                '%s; the text there is %r' % (where, text[so:so + len(cs)][:60] if so is not None else None))
+            eo = so + len(cs) - 1
+            multi = END_TOKEN.search(cs) and '\n' in END_TOKEN.search(cs).group(0)
+            want_line = text.count('\n', 0, eo) + 1
+            want_col = eo - starts[want_line - 1] + 1
+            if ps.end_column != want_col or (ps.end_line != want_line and not multi):
+                raise Violation('accepted-text:end-position-wrong', case, '%s; its last character is at %d:%d' % (where, want_line, want_col))
+            if outer is not None and not (outer[0] <= so and eo <= outer[1]):
+                raise Violation('accepted-text:node-outside-its-parent', case, '%s lies outside the enclosing node %r' % (where, outer))
+            span = (so, eo)
+            n += 1
+        for sub in subnodes(node):
+            stack.append((sub, span))
+    return n
 
 
 def generated_text(ints, lay):
